@@ -89,7 +89,14 @@ fn tag_function(m: &mut Mon, ends: &[f64], extra: &[f64]) {
     });
 }
 
-fn real_function<T: Nums + Evaluate>(m: &mut Mon, r: &mut Rng, positive: bool) {
+// Real piece types are exercised through a macro (concrete types, method-call syntax) rather than a generic function:
+// user code calls `f.evaluate(x)` on a concrete `Piecewise<Poly1>`, where an inherent method would shadow the trait's.
+macro_rules! real_function {
+    ($t:ty, $m:expr, $r:expr, $positive:expr) => {{
+        type T = $t;
+        let m: &mut Mon = $m;
+        let r: &mut Rng = $r;
+        let positive: bool = $positive;
     let n = match r.below(10) {
         0 => 1,
         1..=6 => r.usize(2, 8),
@@ -103,33 +110,40 @@ fn real_function<T: Nums + Evaluate>(m: &mut Mon, r: &mut Rng, positive: bool) {
     };
     let n = ends.len();
     let coeffs: Vec<Vec<f64>> = (0..n)
-        .map(|_| (0..T::LEN).map(|_| r.mixed(2.0)).collect())
+        .map(|_| (0..<T as Nums>::LEN).map(|_| r.mixed(2.0)).collect())
         .collect();
     let pw: Piecewise<T> = pw_from(&ends, &coeffs);
     let mut h = hash_bits(3, pw_nums(&pw).iter().map(|e| e.to_bits()));
-    h = mix2(h, T::NAME.len() as u64 ^ (T::LEN as u64) << 8);
+    h = mix2(h, <T as Nums>::NAME.len() as u64 ^ (<T as Nums>::LEN as u64) << 8);
     m.case(h);
-    m.count(&format!("functions_real:{}", T::NAME));
+    m.count(&format!("functions_real:{}", <T as Nums>::NAME));
     for x in critical_queries(&ends) {
         classify(m, &ends, x);
         m.eval();
         let s = sel(&ends, x);
-        let exp = pw.segments[s].poly.evaluate(x);
+        let exp = match guard(|| pw.segments[s].poly.evaluate(x)) {
+            Ok(v) => v,
+            Err(p) => {
+                m.panic("piece evaluate panic", &p, || json!({"type": <T as Nums>::NAME, "x": hx(x)}));
+                continue;
+            }
+        };
         match guard(|| pw.evaluate(x)) {
             Err(p) => m.panic("Piecewise::evaluate panic", &p, || {
-                json!({"type": T::NAME, "ends": hxs(&ends), "x": hx(x)})
+                json!({"type": <T as Nums>::NAME, "ends": hxs(&ends), "x": hx(x)})
             }),
             Ok(v) => {
                 if !bits_eq(v, exp) {
                     m.violation("Piecewise::evaluate real-piece value differs from selected piece", || {
-                        json!({"type": T::NAME, "ends": hxs(&ends), "coeffs": coeffs.iter().map(|c| hxs(c)).collect::<Vec<_>>(),
+                        json!({"type": <T as Nums>::NAME, "ends": hxs(&ends), "coeffs": coeffs.iter().map(|c| hxs(c)).collect::<Vec<_>>(),
                                "x": hx(x), "expected_segment": s, "expected_bits": hx(exp), "observed_bits": hx(v)})
                     });
                 }
             }
         }
     }
-    m.sample(&format!("real:{}", T::NAME), 1, || json!({"type": T::NAME, "ends": ends, "first_piece": coeffs[0]}));
+    m.sample(&format!("real:{}", <T as Nums>::NAME), 1, || json!({"type": <T as Nums>::NAME, "ends": ends, "first_piece": coeffs[0]}));
+    }};
 }
 
 pub fn small_scope(m: &mut Mon) {
@@ -194,9 +208,9 @@ pub fn run(a: &Args, m: &mut Mon) {
             macro_rules! go {
                 ($t:ident) => {
                     match r.below(3) {
-                        0 => real_function::<$t>(m, &mut r, false),
-                        1 => real_function::<Log<$t>>(m, &mut r, true),
-                        _ => real_function::<IntOfLog<$t>>(m, &mut r, true),
+                        0 => real_function!($t, m, &mut r, false),
+                        1 => real_function!(Log<$t>, m, &mut r, true),
+                        _ => real_function!(IntOfLog<$t>, m, &mut r, true),
                     }
                 };
             }
@@ -210,7 +224,7 @@ pub fn run(a: &Args, m: &mut Mon) {
                 6 => go!(Poly6),
                 7 => go!(Poly7),
                 8 => go!(Poly8),
-                _ => real_function::<IntOfLogPoly4>(m, &mut r, true),
+                _ => real_function!(IntOfLogPoly4, m, &mut r, true),
             }
         }
     }
